@@ -89,10 +89,22 @@ func genBufEdge(t *rapid.T) drive.CrashCase {
 		SyncMode:  rapid.IntRange(0, 1).Draw(t, "sync"),
 		SyncBytes: 1 << 20}
 	const bufSize = 64 * 1024
-	// the record whose header is to straddle the boundary starts at bufSize-7+d
-	d := rapid.IntRange(-9, 9).Draw(t, "edge_d")
-	target := bufSize - 7 + d
 	nk := len(p.Keys)
+	// two kinds of edge: (header) the record that follows the filler starts at
+	// bufSize-7+d, so the buffer boundary falls inside / right behind its 7-byte
+	// header; (fragment) that record is a fragmented put (value > 32 KiB) whose
+	// FIRST fragment (7 + 13 + key bytes) ends at bufSize+d: the file then ends
+	// exactly between two fragments of one entry
+	fragEdge := rapid.IntRange(0, 2).Draw(t, "edge_fragment") == 0
+	straddlerKey := rapid.IntRange(0, nk-1).Draw(t, "straddler_k")
+	var d, target int
+	if fragEdge {
+		d = rapid.IntRange(-2, 2).Draw(t, "edge_fd")
+		target = bufSize - (7 + 13 + len(p.Keys[straddlerKey])) + d
+	} else {
+		d = rapid.IntRange(-9, 9).Draw(t, "edge_d")
+		target = bufSize - 7 + d
+	}
 	tag := uint32(1)
 	sum := 0
 	recPut := func(k, vlen int) int { return 7 + 1 + 8 + 4 + len(p.Keys[k]) + 4 + vlen }
@@ -139,7 +151,16 @@ func genBufEdge(t *rapid.T) drive.CrashCase {
 	// the straddling record and 0-3 more small writes that stay in the buffer
 	for i, n := 0, rapid.IntRange(1, 4).Draw(t, "after"); i < n; i++ {
 		k := rapid.IntRange(0, nk-1).Draw(t, "ak")
-		p.Steps = append(p.Steps, drive.Step{Op: "put", K: k, V: &drive.Val{Len: rapid.IntRange(1, 300).Draw(t, "avlen"), Tag: tag}})
+		vl := rapid.IntRange(1, 300).Draw(t, "avlen")
+		if i == 0 {
+			k = straddlerKey
+			if fragEdge {
+				// one middle fragment and a short last one: no further buffer flush
+				// happens during this put, the file keeps ending behind the first fragment
+				vl = rapid.IntRange(33000, 60000).Draw(t, "fragvlen")
+			}
+		}
+		p.Steps = append(p.Steps, drive.Step{Op: "put", K: k, V: &drive.Val{Len: vl, Tag: tag}})
 		tag++
 	}
 	cut := len(p.Steps)
@@ -154,6 +175,25 @@ func genBufEdge(t *rapid.T) drive.CrashCase {
 		}
 	}
 	rounds := []drive.CrashRound{{To: cut, Abandon: true}}
+	if rapid.Bool().Draw(t, "clean_first") {
+		// an earlier process lifetime that ended cleanly: its writes are durable
+		// whatever the sync mode. The log buffer of the next lifetime starts empty,
+		// so the byte arithmetic above is relative to that lifetime's first write:
+		// the earlier lifetime gets steps of its own, put in front
+		var pre []drive.Step
+		for i, n := 0, rapid.IntRange(1, 6).Draw(t, "npre"); i < n; i++ {
+			k := rapid.IntRange(0, nk-1).Draw(t, "prek")
+			if rapid.IntRange(0, 4).Draw(t, "predel") == 0 {
+				pre = append(pre, drive.Step{Op: "del", K: k})
+			} else {
+				pre = append(pre, drive.Step{Op: "put", K: k, V: &drive.Val{Len: rapid.IntRange(1, 400).Draw(t, "prevlen"), Tag: tag}})
+				tag++
+			}
+		}
+		p.Steps = append(pre, p.Steps...)
+		cut += len(pre)
+		rounds = []drive.CrashRound{{To: len(pre), Clean: true}, {To: cut, Abandon: true}}
+	}
 	if rapid.Bool().Draw(t, "three") {
 		mid := rapid.IntRange(cut, len(p.Steps)).Draw(t, "mid")
 		rounds = append(rounds, drive.CrashRound{To: mid, Clean: rapid.Bool().Draw(t, "clean2"), SelA: rapid.Uint32().Draw(t, "selA"), SelB: rapid.Uint32().Draw(t, "selB")})
@@ -205,8 +245,11 @@ func TestProp(t *testing.T) {
 		if len(c.Rounds) > 1 {
 			classes = append(classes, "multi_round")
 		}
-		if c.Rounds[0].Abandon {
-			classes = append(classes, "log_buffer_boundary_at_record_header")
+		for _, rd := range c.Rounds {
+			if rd.Abandon {
+				classes = append(classes, "log_buffer_boundary_at_record_header_or_fragment_end")
+				break
+			}
 		}
 		if c.Program.Cfg.SyncMode == 2 {
 			classes = append(classes, "sync_immediate")
